@@ -312,16 +312,22 @@ func gen(a vh.Args) {
 			w.Printf("%s\n", l)
 		}
 		// snapshots (regular + exported), log compaction, restart: this store, and the other one
-		for j, t := range []bool{sp.tan, !sp.tan} {
+		for jj, t := range []bool{sp.tan, !sp.tan, sp.tan, !sp.tan} {
+			j := jj % 2
+			kind := "export"
+			fkey := "5.1"
+			if jj >= 2 {
+				kind, fkey = "notify", "7.1"
+			}
 			if j == 1 && a.Tier != "thorough" && i > 0 {
 				continue
 			}
-			tmp := fmt.Sprintf("%s/export_%d_%d.txt", a.Out, i, j)
+			tmp := fmt.Sprintf("%s/%s_%d_%d.txt", a.Out, kind, i, j)
 			_ = os.Remove(tmp + ".partial")
 			got := false
 			for attempt := 0; attempt < 2 && !got; attempt++ {
-				cmd := exec.Command(os.Args[0], "export", "-seed", fmt.Sprint(a.Seed*1000+uint64(i*10+j)+uint64(attempt)*500), "-tier", a.Tier, "-cases", tmp, "-out", a.Out)
-				cmd.Env = append(os.Environ(), fmt.Sprintf("C04_EXPORT_SPEC=%d,%d,%v", i, j, t))
+				cmd := exec.Command(os.Args[0], "export", "-seed", fmt.Sprint(a.Seed*1000+uint64(i*10+jj)+uint64(attempt)*500), "-tier", a.Tier, "-cases", tmp, "-out", a.Out)
+				cmd.Env = append(os.Environ(), fmt.Sprintf("C04_EXPORT_SPEC=%d,%d,%v,%s", i, j, t, kind))
 				outb, err := cmd.CombinedOutput()
 				if err == nil {
 					for _, l := range vh.ReadLines(tmp) {
@@ -336,15 +342,15 @@ func gen(a vh.Args) {
 				} else if pl, perr := os.ReadFile(tmp + ".partial"); perr == nil && len(pl) > 0 {
 					// the process died while the replica was restarting from what its store holds:
 					// the trace recorded up to the restart plus "replica not restartable"
-					w.Printf("%s ; F k=5.1 i=0\n", strings.TrimRight(string(pl), "\n"))
-					fmt.Fprintf(os.Stderr, "c04: export run %d/%d: the process died during the restart of the replica\n", i, j)
+					w.Printf("%s ; F k=%s i=0\n", strings.TrimRight(string(pl), "\n"), fkey)
+					fmt.Fprintf(os.Stderr, "c04: "+kind+" run %d/%d: the process died during the restart of the replica\n", i, j)
 					got = true
 				} else {
 					head := string(outb)
 					if len(head) > 2500 {
 						head = head[:2500]
 					}
-					fmt.Fprintf(os.Stderr, "c04: export run %d/%d attempt %d crashed: %v\n%s\n", i, j, attempt, err, head)
+					fmt.Fprintf(os.Stderr, "c04: "+kind+" run %d/%d attempt %d crashed: %v\n%s\n", i, j, attempt, err, head)
 				}
 				_ = os.Remove(tmp)
 				_ = os.Remove(tmp + ".partial")
@@ -398,18 +404,31 @@ func gen(a vh.Args) {
 func exportChild(a vh.Args) {
 	var i, j int
 	var tan bool
-	if _, err := fmt.Sscanf(os.Getenv("C04_EXPORT_SPEC"), "%d,%d,%t", &i, &j, &tan); err != nil {
+	var kind string
+	if _, err := fmt.Sscanf(os.Getenv("C04_EXPORT_SPEC"), "%d,%d,%t,%s", &i, &j, &tan, &kind); err != nil {
 		fmt.Fprintln(os.Stderr, "bad C04_EXPORT_SPEC")
 		os.Exit(2)
 	}
-	line := func(evs []event) string {
-		return fmt.Sprintf("L%dx%d live export tan=%v | %s\n", i, j, tan, eventsStr(evs))
+	tag := "x"
+	if kind == "notify" {
+		tag = "n"
 	}
-	etrace, enotes, err := exportRun(a.Seed, tan, func(evs []event) {
+	line := func(evs []event) string {
+		return fmt.Sprintf("L%d%s%d live %s tan=%v | %s\n", i, tag, j, kind, tan, eventsStr(evs))
+	}
+	partial := func(evs []event) {
 		_ = os.WriteFile(a.Cases+".partial", []byte(line(evs)), 0644)
-	})
+	}
+	var etrace []event
+	var enotes map[string]int
+	var err error
+	if kind == "notify" {
+		etrace, enotes, err = notifyCommitRun(a.Seed, tan, partial)
+	} else {
+		etrace, enotes, err = exportRun(a.Seed, tan, partial)
+	}
 	if err != nil {
-		fmt.Fprintf(os.Stderr, "c04: export run %d (tan=%v) failed: %v\n", i, tan, err)
+		fmt.Fprintf(os.Stderr, "c04: %s run %d (tan=%v) failed: %v\n", kind, i, tan, err)
 		os.Exit(1)
 	}
 	var ek []string
@@ -417,7 +436,7 @@ func exportChild(a vh.Args) {
 		ek = append(ek, fmt.Sprintf("%s=%d", k, v))
 	}
 	sort.Strings(ek)
-	fmt.Fprintf(os.Stderr, "c04: export run %d tan=%v: %s\n", i, tan, strings.Join(ek, " "))
+	fmt.Fprintf(os.Stderr, "c04: %s run %d tan=%v: %s\n", kind, i, tan, strings.Join(ek, " "))
 	if err := os.WriteFile(a.Cases, []byte(line(etrace)), 0644); err != nil {
 		os.Exit(1)
 	}
@@ -620,6 +639,10 @@ func run(a vh.Args) {
 				}
 				for _, e := range evs {
 					switch e.kind {
+					case 'F':
+						if e.index != 0 {
+							st.Violation(id, fmt.Sprintf("replica %s: completed-not-durable: proposal %d was reported Completed and is not applied (not visible to a linearizable read) after the restart", e.k, e.index))
+						}
 					case 'X':
 						st.Count("crash_instants")
 					case 'C':
